@@ -37,7 +37,7 @@ _REQ = ([f"pert:{p}" for p in PERTS] +
         ["entry:AggregateVerify:basic", "entry:AggregateVerify:aug", "entry:AggregateVerify:pop",
          "entry:FastAggregateVerify", "entry:Aggregate", "want:True", "want:False", "repeated_key", "repeated_msg",
          "zero_sum", "aggregate:wrong_size", "aggregate:empty", "aggregate:regroup", "n>=4"])
-REQUIRED_LABELS = {"quick": _REQ, "thorough": _REQ + ["n>=16"]}
+REQUIRED_LABELS = {"quick": _REQ + ["aggregate:n>=7"], "thorough": _REQ + ["n>=16", "aggregate:n>=7"]}
 
 KEY_POOL = [1, 2, 3, R - 1, R - 2, (R - 1) // 2, 0x263dbd792f5b1be47ed85f8938c0f29586af0d3ac7b977f21c278fe1462040e3,
             0x47b8192d77bf871b62e87859d653922725724a5c031afeabc60bcef5ff665138, (1 << 254) + 12345, 1 << 200,
@@ -187,6 +187,8 @@ def o_aggregate(ctx, case):
         ctx.check(got3 == want, "aggregate", "grouping_dependent", case, f"Aggregate of aggregates {groups} differs")
         ctx.label("aggregate:regroup")
     ctx.label("entry:Aggregate")
+    if len(sigs) >= 7:
+        ctx.label("aggregate:n>=7")
     if len(sigs) >= 2:
         ctx.nontrivial(("a", suite, case["sigs"], perm, groups))
     ctx.sample({k: (v if k != "sigs" or len(v) <= 3 else v[:3] + ["..."]) for k, v in case.items()}, "Aggregate")
@@ -318,11 +320,14 @@ def s_verify(nmax):
                     st.just(1000))
     midx = st.one_of(st.integers(0, 40), st.integers(0, 40), st.integers(0, 40), st.integers(500, 520))
     n = st.one_of(st.integers(1, min(6, nmax)), st.integers(1, nmax))
+    n_fast = st.one_of(st.integers(1, 6), st.integers(7, 40))
     pert = uniform_int(0, 10 ** 6).map(lambda i: PERTS[(i + 5) % len(PERTS)])
     fresh = st.one_of(st.just(0), st.just(0), uniform_int(1, R - 1))
-    return n.flatmap(lambda k: st.tuples(
-        sc.s_suite(), st.sampled_from([False, False, True]), st.lists(idx, min_size=k, max_size=k),
-        st.lists(midx, min_size=k, max_size=k), pert, st.integers(0, 10 ** 6), st.integers(0, 10 ** 6), fresh)).map(build)
+    def case_for(fast):
+        return (n_fast if fast else n).flatmap(lambda k: st.tuples(
+            sc.s_suite(), st.just(fast), st.lists(idx, min_size=k, max_size=k),
+            st.lists(midx, min_size=k, max_size=k), pert, st.integers(0, 10 ** 6), st.integers(0, 10 ** 6), fresh))
+    return st.sampled_from([False, False, True]).flatmap(case_for).map(build)
 
 
 def s_aggregate():
@@ -353,8 +358,9 @@ def s_aggregate():
             case["sigs"] = []
         return case
     entry = st.tuples(st.sampled_from([0, 0, 0, 0, 1, 2]), st.integers(0, 40), st.integers(0, 40))
-    return st.tuples(sc.s_suite(), st.lists(entry, min_size=1, max_size=6), st.sampled_from([0, 1, 1, 2, 2, 3, 4]),
-                     st.integers(0, 10 ** 6)).map(mk)
+    sizes = st.one_of(st.integers(1, 6), st.integers(1, 6), st.integers(7, 40))
+    return st.tuples(sc.s_suite(), sizes.flatmap(lambda k: st.lists(entry, min_size=k, max_size=k)),
+                     st.sampled_from([0, 1, 1, 2, 2, 3, 4]), st.integers(0, 10 ** 6)).map(mk)
 
 
 def t_verify(ctx, shard, nshards, n, nmax):
